@@ -485,6 +485,99 @@ pub fn check_all(sim: &Sim, when: &'static str) {
     }
 }
 
+/// replace(new); update() fails at the new child's register(); update() again. The old child
+/// has been unregistered exactly once by then, the new one is registered, both update results
+/// are what they have to be. The source counts as indeterminate afterwards (a scripted failure
+/// hit it); this operation carries its own oracle.
+pub fn replace_fail_retry(sim: &Sim, id: Id, spec: &ChildSpec) {
+    if sim.hk.borrow().in_dispatch {
+        return;
+    }
+    let Some(handle) = sim.st.borrow().handle.clone() else { return };
+    let (disp, old_log, no, token) = {
+        let st = sim.st.borrow();
+        let Some(s) = st.srcs.get(&id) else { return };
+        let K::Trans(t) = &s.k else { return };
+        if !(s.inserted && s.enabled) || s.indeterminate || s.in_processing > 0 || t.gave_up || !s.sh.fail.borrow().is_empty() {
+            return;
+        }
+        if t.pending_replace.is_some() || t.pending_remove || t.child_disabled || !t.inproc.borrow().is_empty() {
+            return;
+        }
+        let Some(cur) = t.current else { return };
+        // no other scripted failure is waiting
+        if !t.children[cur].log.registered.get() || t.children[cur].log.fail.get() != 0 || t.arm_new_register_fail {
+            return;
+        }
+        let (Some(d), Some(tok)) = (t.disp.clone(), s.token) else { return };
+        (d, t.children[cur].log.clone(), t.children.len() as u32, tok)
+    };
+    let (c, m) = make_child(sim, spec, no, id, 1);
+    let new_log = m.log.clone();
+    // an injected poller fault landing inside this operation makes its outcome anybody's guess
+    let injected_before = sim.hk.borrow().faults_fired.len();
+    let injected = |sim: &Sim| sim.hk.borrow().faults_fired.len() != injected_before;
+    let unreg_before = old_log.unreg.get();
+    if guarded(sim, "replace", || disp.as_source_mut().inner.tr.replace(c)).is_none() {
+        return;
+    }
+    {
+        let mut st = sim.st.borrow_mut();
+        if let Some(s) = st.srcs.get_mut(&id) {
+            // from here on only this operation's own oracle speaks about the source
+            s.indeterminate = true;
+            if let K::Trans(t) = &mut s.k {
+                t.children.push(m);
+                t.pending_replace = Some(t.children.len() - 1);
+                t.gave_up = true;
+            }
+        }
+    }
+    drop(disp);
+    let first = guarded(sim, "update", || handle.update(&token).map_err(|e| e.to_string()));
+    let Some(first) = first else { return };
+    if injected(sim) {
+        return;
+    }
+    let viol = |sim: &Sim, what: &str, d: String| sim.violate("transient.failed_replacement_retry", vec![what.to_string()], d);
+    if first.is_ok() {
+        // the scripted failure did not fire (the wrapper did not try to register the new child)
+        if !new_log.fail_fired.get() {
+            return viol(sim, "replacement_not_attempted", format!("update() after replace() on transient parent {} did not try to register the new child", id));
+        }
+    }
+    if first.is_ok() && new_log.fail_fired.get() {
+        return viol(sim, "error_swallowed", format!("update() of transient parent {} returned Ok although the registration of the replacement child failed", id));
+    }
+    let second = guarded(sim, "update", || handle.update(&token).map_err(|e| e.to_string()));
+    let Some(second) = second else { return };
+    if injected(sim) {
+        return;
+    }
+    sim.probe("transient_failed_replacement_retried");
+    if let Err(e) = &second {
+        return viol(sim, "retry_failed", format!("transient parent {}: the update() that failed at the replacement child's registration cannot be retried: {}", id, e));
+    }
+    if old_log.double_unregister.get() || old_log.unreg.get() != unreg_before + 1 {
+        return viol(sim, "old_child_unregistered_again", format!("transient parent {}: across a failed replacement and its retry the old child was unregistered {} times", id, old_log.unreg.get() - unreg_before));
+    }
+    if !new_log.registered.get() || new_log.reg.get() != 1 {
+        return viol(sim, "replacement_not_installed", format!("transient parent {}: after the successful retry the replacement child is registered={} (register() calls: {})", id, new_log.registered.get(), new_log.reg.get()));
+    }
+    if old_log.dropped_registered.get() {
+        return viol(sim, "old_child_dropped_registered", format!("transient parent {}: the replaced child was dropped while registered", id));
+    }
+    {
+        let mut st = sim.st.borrow_mut();
+        if let Some(K::Trans(t)) = st.srcs.get_mut(&id).map(|s| &mut s.k) {
+            if let Some(n) = t.pending_replace.take() {
+                t.current = Some(n);
+            }
+        }
+    }
+    sim.rule_ok(&["C15", "C18"], 182);
+}
+
 /// remove() / replace() / map() from outside the loop, followed (protocol) by update()
 pub fn tr_op(sim: &Sim, id: Id, op: &Op, in_cb: bool, lazy: bool) {
     let Some((disp, inserted, enabled, in_proc)) = ({
@@ -508,6 +601,7 @@ pub fn tr_op(sim: &Sim, id: Id, op: &Op, in_cb: bool, lazy: bool) {
             return; // one change per re-registration
         }
         match op {
+            Op::TrAssign(..) => return,
             Op::TrRemove(_) => {
                 t.inproc.borrow_mut().push(InProc::Remove);
                 t.pending_remove = true;
@@ -607,6 +701,30 @@ pub fn tr_op(sim: &Sim, id: Id, op: &Op, in_cb: bool, lazy: bool) {
                     t.children.pop();
                 }
             }
+        }
+        Op::TrAssign(_, spec, _) => {
+            // only into an empty slot with nothing pending
+            let (ok, no) = {
+                let st = sim.st.borrow();
+                match st.srcs.get(&id).map(|s| &s.k) {
+                    Some(K::Trans(t)) => (t.current.is_none() && t.pending_replace.is_none() && !t.pending_remove && t.inproc.borrow().is_empty() && !t.arm_new_register_fail, t.children.len() as u32),
+                    _ => (false, 0),
+                }
+            };
+            if !ok {
+                return;
+            }
+            let (c, m) = make_child(sim, spec, no, id, 0);
+            if guarded(sim, "assign", || disp.as_source_mut().inner.tr = TransientSource::from(c)).is_none() {
+                return;
+            }
+            let mut st = sim.st.borrow_mut();
+            if let Some(K::Trans(t)) = st.srcs.get_mut(&id).map(|s| &mut s.k) {
+                t.children.push(m);
+                t.pending_replace = Some(t.children.len() - 1);
+            }
+            drop(st);
+            sim.probe("transient_slot_filled_late");
         }
         _ => {}
     }
